@@ -68,6 +68,12 @@ pub fn run_ops(sc: &mut ParameterNumberMessageScanner, ops: &[i64], obs: &mut Ve
                 *sc = Default::default();
                 None
             }),
+            // real time passes between two feeds (no effect in the model: these scanners have
+            // no notion of time)
+            10 => {
+                std::thread::sleep(std::time::Duration::from_millis(op[1] as u64));
+                Some(None)
+            }
             k => region(|| with_msg(k, op[1], op[2], op[3], &mut |m| m.feed_pn(sc))),
         };
         match r {
@@ -105,7 +111,7 @@ pub fn exec(tag: i64, inp: &[i64]) -> Vec<i64> {
                                 && t[i].map(|x| bytes_of(&x)) == a[i].map(|x| bytes_of(&x))
                         })
                     });
-                    o.push(same.map(|b| b as i64).unwrap_or(PANIC));
+                    o.push(same.map(|b| b as i64 & crate::sm::debug_touch(&m) as i64).unwrap_or(PANIC));
                     o
                 }
             }
@@ -179,6 +185,23 @@ const PN_CNS: [i64; 8] = [98, 99, 100, 101, 38, 6, 96, 97];
 
 /// One random operation over the (N)RPN scanners' alphabet (also used for the polling scanner).
 pub fn random_op(r: &mut Rng, nch: u64, v: &mut Vec<i64>) {
+    random_op_inner(r, nch, v);
+    confuse_value(r, v);
+}
+
+/// Sometimes the value byte of the operation just generated is replaced by a byte that plays
+/// another role in the same history (a controller number, a controller number +-32, an earlier
+/// value): coincidences between independently chosen fields.
+pub fn confuse_value(r: &mut Rng, v: &mut Vec<i64>) {
+    let n = v.len();
+    if n >= 8 && v[n - 4] != 2 && v[n - 4] != 8 && v[n - 4] != 10 && v[n - 3] >= 176 && v[n - 3] < 192 && r.chance(1, 6) {
+        let i = 4 * r.below((n / 4 - 1) as u64) as usize;
+        let pool = [v[i + 2], (v[i + 2] + 32) % 128, (v[i + 2] + 96) % 128, v[i + 3], v[n - 2], (v[n - 2] + 32) % 128];
+        v[n - 1] = r.pick(&pool).clamp(0, 127);
+    }
+}
+
+fn random_op_inner(r: &mut Rng, nch: u64, v: &mut Vec<i64>) {
     // sometimes repeat an earlier operation of this history verbatim (identical bytes again)
     if v.len() >= 8 && v.len() % 4 == 0 && r.chance(1, 8) {
         let i = 4 * r.below((v.len() / 4) as u64) as usize;
@@ -266,8 +289,14 @@ pub fn gen_c09(tier: Tier, seed: u64, em: &mut Emitter) {
     for _ in 0..n {
         let k = r.below(8) as i64;
         let is14 = k == 1 || k == 5;
-        let v = if is14 { boundary14(&mut r) } else { r.below(128) as i64 };
-        em.emit_k("random", 90, vec![k, r.below(16) as i64, boundary14(&mut r), v, r.below(2) as i64]);
+        let num = boundary14(&mut r);
+        let mut v = if is14 { boundary14(&mut r) } else { r.below(128) as i64 };
+        if r.chance(1, 8) {
+            // fields that coincide or are derived from each other
+            let c = [num, num / 128, num % 128, (num + 1) % 16384, num ^ 0x2000];
+            v = r.pick(&c) % if is14 { 16384 } else { 128 };
+        }
+        em.emit_k("random", 90, vec![k, r.below(16) as i64, num, v, r.below(2) as i64]);
     }
 }
 
@@ -347,6 +376,7 @@ pub fn gen_c10(tier: Tier, seed: u64, em: &mut Emitter) {
         }
         em.emit_k("running-very-long", 101, inp);
     }
+    real_time_records(110, tier, &mut r, em);
 }
 
 /// Abstract alphabet for the bounded-exhaustive part: two values per byte class.
@@ -384,5 +414,20 @@ pub fn gen_c11(tier: Tier, seed: u64, em: &mut Emitter) {
         let mut inp = Vec::new();
         random_history(&mut r, maxlen, &mut inp);
         em.emit_k("random", 110, inp);
+    }
+    real_time_records(110, tier, &mut r, em);
+}
+
+/// The non-polling scanner has no notion of time: real time passing between two feeds (a sleep
+/// of 1.2 s; thorough also 6 s) changes nothing.
+pub fn real_time_records(tag: i64, tier: Tier, r: &mut Rng, em: &mut Emitter) {
+    let sleeps: &[i64] = if tier == Tier::Thorough { &[1200, 6000] } else { &[1200] };
+    for &ms in sleeps {
+        let c = r.below(16) as i64;
+        let s = 176 + c;
+        let (x, y, l, m) = (r.below(128) as i64, r.below(128) as i64, r.below(128) as i64, r.below(128) as i64);
+        // number, LSB, <time>, MSB (14-bit); MSB <time> after the number; increments after <time>
+        let h = vec![0, s, 99, x, 0, s, 98, y, 0, s, 38, l, 10, ms, 0, 0, 0, s, 6, m, 0, s, 96, 1, 0, s, 38, l, 0, s, 6, m];
+        em.emit_k("real-time", tag, h);
     }
 }
